@@ -32,23 +32,23 @@ def St.frame (s : St) :=
   all_goals rfl
 
 /-! ### learn -/
-@[simp] theorem learn_frame (s : St) (k : Sock) (a : Addr) : (learn s k a).frame = s.frame := by
+@[simp] theorem learn_frame (s : St) (k : Sock) (a : Addr) (q : Option Nat) : (learn s k a q).frame = s.frame := by
   unfold learn; split <;> rfl
-@[simp] theorem learn_selected (s : St) (k : Sock) (a : Addr) : (learn s k a).selected = s.selected := by
+@[simp] theorem learn_selected (s : St) (k : Sock) (a : Addr) (q : Option Nat) : (learn s k a q).selected = s.selected := by
   unfold learn; split <;> rfl
-@[simp] theorem learn_nominated (s : St) (k : Sock) (a : Addr) : (learn s k a).nominated = s.nominated := by
+@[simp] theorem learn_nominated (s : St) (k : Sock) (a : Addr) (q : Option Nat) : (learn s k a q).nominated = s.nominated := by
   unfold learn; split <;> rfl
-@[simp] theorem learn_state (s : St) (k : Sock) (a : Addr) : (learn s k a).state = s.state := by
+@[simp] theorem learn_state (s : St) (k : Sock) (a : Addr) (q : Option Nat) : (learn s k a q).state = s.state := by
   unfold learn; split <;> rfl
-@[simp] theorem learn_lastRx (s : St) (k : Sock) (a : Addr) : (learn s k a).lastRx = s.lastRx := by
+@[simp] theorem learn_lastRx (s : St) (k : Sock) (a : Addr) (q : Option Nat) : (learn s k a q).lastRx = s.lastRx := by
   unfold learn; split <;> rfl
-@[simp] theorem learn_selSock (s : St) (k : Sock) (a : Addr) : (learn s k a).selSock = s.selSock := by
+@[simp] theorem learn_selSock (s : St) (k : Sock) (a : Addr) (q : Option Nat) : (learn s k a q).selSock = s.selSock := by
   unfold learn; split <;> rfl
-theorem learn_remotes (s : St) (k : Sock) (a : Addr) :
-    (learn s k a).remotes = if s.remotes.any (fun c => c.address = a) then s.remotes else s.remotes ++ [prflxCand k a] := by
+theorem learn_remotes (s : St) (k : Sock) (a : Addr) (q : Option Nat) :
+    (learn s k a q).remotes = if s.remotes.any (fun c => c.address = a) then s.remotes else s.remotes ++ [prflxCand k a q] := by
   unfold learn; split <;> simp_all
-theorem learn_known (s : St) (k : Sock) (a : Addr) (h : s.remotes.any (fun c => c.address = a) = true) :
-    learn s k a = s := by
+theorem learn_known (s : St) (k : Sock) (a : Addr) (q : Option Nat) (h : s.remotes.any (fun c => c.address = a) = true) :
+    learn s k a q = s := by
   unfold learn; simp [h]
 
 /-! ### latch -/
@@ -119,7 +119,7 @@ theorem useCandidate_id (s : St) (k : Sock) (a : Addr) (h : s.role = .controllin
     (handleAuthenticated s k a r).frame = s.frame := by
   unfold handleAuthenticated; split <;> simp
 theorem handleAuthenticated_remotes (s : St) (k : Sock) (a : Addr) (r : Req) :
-    (handleAuthenticated s k a r).remotes = (learn s k a).remotes := by
+    (handleAuthenticated s k a r).remotes = (learn s k a r.priority).remotes := by
   unfold handleAuthenticated; split <;> simp
 @[simp] theorem handleAuthenticated_lastRx (s : St) (k : Sock) (a : Addr) (r : Req) :
     (handleAuthenticated s k a r).lastRx = s.lastRx := by
@@ -173,50 +173,52 @@ theorem useCandidate_nominated_mono (x : St) (k : Sock) (a : Addr) :
     (useCandidate x k a).nominated = x.nominated ∨ (useCandidate x k a).nominated = some true := by
   unfold useCandidate; repeat' split
   all_goals simp
+theorem toConnected_mono (st : IceState) : toConnected st = st ∨ toConnected st = .connected := by
+  unfold toConnected; split <;> simp [*]
 theorem tcpNominate_state_mono (x : St) (k : Sock) (a : Addr) :
     (tcpNominate x k a).state = x.state ∨ (tcpNominate x k a).state = .connected := by
   unfold tcpNominate withPairConnected; repeat' split
-  all_goals simp
+  all_goals first | exact toConnected_mono _ | simp
 theorem useCandidate_state_mono (x : St) (k : Sock) (a : Addr) :
     (useCandidate x k a).state = x.state ∨ (useCandidate x k a).state = .connected := by
   unfold useCandidate; repeat' split
-  all_goals simp
+  all_goals first | simp; done | (simp only [publish_state]; exact toConnected_mono _)
 
 theorem handleAuthenticated_nominated_mono (s : St) (k : Sock) (a : Addr) (r : Req) :
     (handleAuthenticated s k a r).nominated = s.nominated ∨ (handleAuthenticated s k a r).nominated = some true := by
   unfold handleAuthenticated
-  have e : (latch (learn s k a) k a).nominated = s.nominated := by simp
+  have e : (latch (learn s k a r.priority) k a).nominated = s.nominated := by simp
   split
-  · rcases useCandidate_nominated_mono (tcpNominate (latch (learn s k a) k a) k a) k a with h | h
-    · rcases tcpNominate_nominated_mono (latch (learn s k a) k a) k a with h' | h'
+  · rcases useCandidate_nominated_mono (tcpNominate (latch (learn s k a r.priority) k a) k a) k a with h | h
+    · rcases tcpNominate_nominated_mono (latch (learn s k a r.priority) k a) k a with h' | h'
       · left; rw [h, h', e]
       · right; rw [h, h']
     · right; exact h
-  · rcases tcpNominate_nominated_mono (latch (learn s k a) k a) k a with h' | h'
+  · rcases tcpNominate_nominated_mono (latch (learn s k a r.priority) k a) k a with h' | h'
     · left; rw [h', e]
     · right; exact h'
 
 theorem handleAuthenticated_state_mono (s : St) (k : Sock) (a : Addr) (r : Req) :
     (handleAuthenticated s k a r).state = s.state ∨ (handleAuthenticated s k a r).state = .connected := by
   unfold handleAuthenticated
-  have e : (latch (learn s k a) k a).state = s.state := by simp
+  have e : (latch (learn s k a r.priority) k a).state = s.state := by simp
   split
-  · rcases useCandidate_state_mono (tcpNominate (latch (learn s k a) k a) k a) k a with h | h
-    · rcases tcpNominate_state_mono (latch (learn s k a) k a) k a with h' | h'
+  · rcases useCandidate_state_mono (tcpNominate (latch (learn s k a r.priority) k a) k a) k a with h | h
+    · rcases tcpNominate_state_mono (latch (learn s k a r.priority) k a) k a with h' | h'
       · left; rw [h, h', e]
       · right; rw [h, h']
     · right; exact h
-  · rcases tcpNominate_state_mono (latch (learn s k a) k a) k a with h' | h'
+  · rcases tcpNominate_state_mono (latch (learn s k a r.priority) k a) k a with h' | h'
     · left; rw [h', e]
     · right; exact h'
 
 theorem handleAuthenticated_controlling (s : St) (k : Sock) (a : Addr) (r : Req) (hr : s.role = .controlling)
-    (hl : s.latching = false) : handleAuthenticated s k a r = learn s k a := by
+    (hl : s.latching = false) : handleAuthenticated s k a r = learn s k a r.priority := by
   unfold handleAuthenticated
-  have hl' : (learn s k a).latching = false := by rw [frame_latching (learn_frame s k a)]; exact hl
+  have hl' : (learn s k a r.priority).latching = false := by rw [frame_latching (learn_frame s k a r.priority)]; exact hl
   simp only
   rw [latch_off _ _ _ hl']
-  have hr' : (learn s k a).role = .controlling := by rw [frame_role (learn_frame s k a)]; exact hr
+  have hr' : (learn s k a r.priority).role = .controlling := by rw [frame_role (learn_frame s k a r.priority)]; exact hr
   rw [tcpNominate_id _ _ _ (Or.inl hr'), useCandidate_id _ _ _ (Or.inl hr')]
   simp
 
@@ -241,7 +243,35 @@ theorem step_pending_subset (s : St) (sock : Sock) (src : Addr) (i : Inp) :
       exact ⟨h, by simp [List.mem_filter]⟩
     · simp [step, handleResponse, h]
   | request r => simp [step]
-  | empty | data | undecodable | indication => simp [step]
+  | empty | undecodable => simp [step]
+  | data | indication => simp only [step]; split <;> simp
+
+
+/-- lemma: the transport mode never changes -/
+theorem hstep_webrtc (s : St) (e : HEv) : (hstep s e).webrtc = s.webrtc := by
+  cases e with
+  | pkt sock src i =>
+    cases i with
+    | request r => simp [hstep, step]
+    | response tx er => simp only [hstep, step, handleResponse]; split <;> rfl
+    | data | indication => simp only [hstep, step]; split <;> rfl
+    | undecodable | empty => rfl
+  | tick tx => rfl
+  | advance t => rfl
+
+
+theorem classify_request_accepted (P : Prims) (ufrag pwd b : Bytes) (r : Req)
+    (h : classify P ufrag pwd b = .request r) : r.accepted = codeAuth P ufrag pwd b := by
+  unfold classify at h
+  split at h
+  · cases h
+  · split at h
+    · split at h
+      · split at h
+        · cases h; rfl
+        all_goals cases h
+      · cases h
+    · cases h
 
 
 end RtcModel.IceAuth
